@@ -122,6 +122,11 @@ def gen_mk_op(rng):
     w["weapons"][0]["sight_height"] = [1.5, "Inch"]
     w["shots"].append({"weapon": 0, "ammo": 0, "atmo": 0, "winds": 0, "look": gen.gen_angle_deg(rng, 1.5),
                        "relative": [0.0, "Degree"], "cant": [0.0, "Degree"]})
+    if what == "atmo" and rng.random() < 0.25:
+        # a temperature below absolute zero: the library warns and substitutes its lowest modelled temperature
+        w["atmos"][0] = {"kind": "explicit", "altitude": [100.0, "Foot"], "pressure": [29.9, "InHg"],
+                         "temperature": [-500.0, "Fahrenheit"], "humidity": 0.0}
+        return {"op": "mk", "what": what, "world": w, "warns": True}
     bad = rng.random() < 0.2
     if bad:
         if what == "dm":
@@ -192,6 +197,14 @@ def gen_client_program(rng, w, task_idx, calcs, shots, n_ops, raising_calcs, all
             prog.append({"op": "new_calc", "calc": c})
             created.append(c)
             continue
+        if rng.random() < 0.05:
+            # an input that makes the library WARN (temperature below absolute zero): its outcome depends on the user's
+            # warnings filter - and must depend on nothing else
+            mw = empty_world()
+            mw["atmos"].append({"kind": "explicit", "altitude": [100.0, "Foot"], "pressure": [29.9, "InHg"],
+                                "temperature": [-500.0, "Fahrenheit"], "humidity": 0.0})
+            prog.append({"op": "mk", "what": "atmo", "world": mw, "warns": True})
+            continue
         # "repeating it gives bit-identical results": sometimes repeat an earlier computation verbatim
         prev = [o for o in prog if o.get("op") in ("fire", "zero", "elev")]
         if prev and rng.random() < 0.18:
@@ -228,7 +241,8 @@ def gen_client_program(rng, w, task_idx, calcs, shots, n_ops, raising_calcs, all
                              "height": [round(rng.uniform(0.2, 3.0), 2), gen.pick(rng, ["Meter", "Foot", "Yard"])],
                              "look": None if rng.random() < 0.7 else gen.gen_angle_deg(rng, 2.0)})
         elif kind == "zero":
-            far = rng.random() < 0.08
+            # far (mostly unreachable) targets only on coarse calculators: 20+ trial trajectories of several km each
+            far = rng.random() < 0.08 and (w["calcs"][c].get("config") or {}).get("max_calc_step_size_feet", 0.5) >= 4.0
             prog.append({"op": "zero", "calc": c, "shot": s,
                          "dist": gen_range(rng, 25, 400) if not far else gen_range(rng, 4000, 9000)})
         elif kind == "elev":
@@ -308,7 +322,7 @@ def gen_admin_perturb_program(rng, n):
             prog.append({"op": "log_sink", "action": gen.pick(rng, ["attach", "attach", "detach"]),
                          "failing": rng.random() < 0.7, "name": "s%d" % rng.randrange(2)})
         else:
-            prog.append({"op": "warn_filter", "action": gen.pick(rng, ["error", "ignore", "default", "always", "reset"])})
+            prog.append({"op": "warn_filter", "action": gen.pick(rng, ["error", "error", "error", "ignore", "default", "always", "reset"])})
     return prog
 
 
